@@ -756,6 +756,14 @@ def _expand(item):
 
 
 def run(rep):
+    try:
+        _run(rep)
+    finally:
+        common.close_pool()
+        H.sweep_scratch('c14')
+
+
+def _run(rep):
     global _PLANS
 
     install()
@@ -890,8 +898,6 @@ def run(rep):
 
     rep.part('violating_cases_by_signature', **bysig)
 
-    common.close_pool()
-    H.sweep_scratch('c14')
 
 
 def replay(rec) -> bool:
